@@ -138,6 +138,18 @@ def programs():
     out["opt.arg-roundtrip"] = P([fn("f", "int", ii, [("assign", V("a"), "=", B("+", V("a"), V("b"))), ("decl", "int", "c", V("a")), ("assign", V("b"), "=", V("c")), ("return", B("+", V("b"), V("a")))])], inputs={"a": "int", "b": "int"})
     out["opt.const-cast"] = P([fn("f", "float", [("float", "x")], [("decl", "float", "y", B("+", V("x"), I(1))), ("assign", V("y"), "=", B("*", V("y"), I(2))), ("return", B("+", V("y"), F(1.0)))])], inputs={"x": "float"})
     out["opt.int-float-const"] = P([fn("f", "float", [("int", "a")], [("decl", "int", "b", B("+", V("a"), I(1))), ("decl", "float", "c", F(1.0)), ("return", B("+", V("c"), V("b")))])], inputs={"a": "int"})
+    # --- round-2 lessons: loops without a condition, a compound assignment as the for-increment, float storage holding Python ints
+    out["for.no-condition"] = P([fn("f", "int", [("int", "n")], [("decl", "int", "s", I(0)), ("for", ("decl", "int", "i", I(0)), None, ("expr", ("pre", "++", "i")),
+                                 [("if", B(">=", V("i"), V("n")), [("break",)], None), ("assign", V("s"), "=", B("+", B("*", V("s"), I(10)), V("i")))]), ("return", V("s"))])], inputs={"n": "0..3"})
+    out["for.compound-next"] = P([fn("f", "int", [("int", "n")], [("decl", "int", "s", I(0)), ("for", ("decl", "int", "i", I(0)), B("<", V("i"), V("n")), ("assign", V("i"), "+=", I(2)),
+                                  [("assign", V("s"), "=", B("+", B("*", V("s"), I(10)), B("+", V("i"), I(1))))]), ("return", V("s"))])], inputs={"n": "0..5"})
+    out["for.next-assign-expr"] = P([fn("f", "int", [("int", "n")], [("decl", "int", "s", I(0)), ("for", ("decl", "int", "i", I(0)), B("<", V("i"), V("n")), ("assign", V("i"), "=", B("+", B("*", V("i"), I(2)), I(1))),
+                                     [("assign", V("s"), "+=", V("i"))]), ("return", V("s"))])], inputs={"n": "0..8"})
+    out["float.int-representation"] = P([fn("f", "float", [("int", "n")], [("decl", "float", "x", I(7)), ("decl", "float", "y", None), ("decl", "float", "z", None),
+                                         ("for", ("decl", "int", "i", I(0)), B("<", V("i"), V("n")), ("expr", ("pre", "++", "i")), [("expr", ("post", "++", "y"))]),
+                                         ("assign", V("z"), "=", B("+", V("y"), I(2))), ("return", B("+", B("/", V("x"), V("z")), B("/", V("y"), I(2))))])], inputs={"n": "0..3"})
+    out["float.literal-div"] = P([fn("f", "float", [("int", "a")], [("decl", "float", "x", I(7)), ("decl", "float", "y", I(2)), ("assign", V("g"), "=", B("/", V("x"), V("y"))), ("return", B("+", V("g"), V("a")))])],
+                                 globals_=[("float", "g")], inputs={"a": "int", "@g": "float"})
     return out
 
 
@@ -350,3 +362,123 @@ def e2e_history(R):
             return goals
 
         verify(R, "E2E.history", "nsl.VM::VirtualMachine.Invoke", run, label=f"{len(seqs)}-histories,{'optimize' if options else 'plain'}")
+
+
+# ---------------------------------------------------------------------------
+# C02 stated directly: optimised module == unoptimised module, beyond the scalar core (aggregate copies, vectors, casts, loops
+# without a condition).  The oracle is the SAME VM running the unoptimised module in the same path context -- no reference
+# semantics is involved, so whatever the unoptimised module does (including aliasing of whole-array assignments) is the expectation.
+
+def raw_programs():
+    out = {}
+    out["array-copy.write-through"] = ("export function f(int v, int w) -> int { int[2] a; int[2] b; a[0] = v; b = a; b[0] = w; return ((a[0] * 1000) + b[0]); }", {"v": "0..9", "w": "0..9"})
+    out["array-copy.literal-write"] = ("export function f(int v) -> int { int[2] a; int[2] b; a[0] = v; b = a; b[0] = 1; return a[0]; }", {"v": "int"})
+    out["array-copy.read-both"] = ("export function f(int v) -> int { int[3] a; int[3] b; a[1] = v; b = a; b[1] = (b[1] + 3); a[2] = 4; return (((a[1] * 100) + (b[1] * 10)) + b[2]); }", {"v": "0..9"})
+    out["struct-copy.write-through"] = ("struct S { int x; int y; } export function f(int v) -> int { S s; S t; s.x = v; t = s; t.x = 1; return ((s.x * 10) + t.x); }", {"v": "0..9"})
+    out["vector-copy.index-write"] = ("export function f(float x, float y) -> float4 { float4 t; float4 u; t = float4(x, y, 3.0, 4.0); u = t; u[2] = 5.0; return t; }", {"x": "float", "y": "float"})
+    out["vector-copy.swizzle-source"] = ("export function f(float4 p) -> float2 { float2 t; float2 u; t = p.zx; u = t; u[1] = 9.0; return t; }", {"p": "float4"})
+    out["vector-copy.return-copy"] = ("export function f(float4 p) -> float4 { float4 u; u = p; u[0] = 7.0; u.y = 8.0; return u; }", {"p": "float4"})
+    out["vector.global-kept"] = ("float4 g; export function f(float x) -> float4 { float4 u; g = float4(x, 1.0, 2.0, 3.0); u = g; u[3] = 0.5; return u; }", {"x": "float", "@g": "float4"})
+    out["matrix-copy.elem-write"] = ("export function f(float3x3 m, float s) -> float3x3 { float3x3 t; t = m; t[1][2] = s; return m; }", {"m": "float3x3", "s": "float"})
+    out["for.no-condition"] = ("export function f(int n) -> int { int s = 0; for (int i = 0; ; ++i) { if (i >= n) { break; } s = (s + i); } return s; }", {"n": "0..3"})
+    out["for.no-condition-return"] = ("export function f(int n) -> int { for (int i = 0; ; ++i) { if ((i * i) >= n) { return i; } } return 0; }", {"n": "0..9"})
+    out["float.int-representation"] = ("export function f(int n) -> float { float x = 7; float y; float z; for (int i = 0; i < n; ++i) { y++; } z = (y + 2); return ((x / z) + (y / 2)); }", {"n": "0..3"})
+    out["uint.param-literal"] = ("function g(uint u) -> uint { return (u + 10); } export function f(int a) -> uint { return g(7); }", {"a": "int"})
+    out["cast.int-to-float-arg"] = ("function g(float u) -> float { return (u / 2); } export function f(int a) -> float { return (g(a) + g(3)); }", {"a": "int"})
+    out["call.vector-arg"] = ("function g(float2 v) -> float { return (v.x + v.y); } export function f(float2 p) -> float { float2 q; q = p; q[0] = 1.0; return (g(q) + g(p)); }", {"p": "float2"})
+    return out
+
+
+def _raw_inputs(ctx, decl):
+    kw, gl = {}, {}
+    for name, dom in decl.items():
+        key = name.lstrip("@")
+        if dom == "float":
+            v = ctx.real(key)
+        elif dom.startswith("float") and "x" in dom:
+            n = int(dom[5])
+            v = vs.symmat(ctx, key, n)
+        elif dom.startswith("float"):
+            v = vs.symvec(ctx, key, int(dom[5]))
+        else:
+            v = ctx.int(key)
+            if ".." in dom:
+                lo, hi = dom.split("..")
+                ctx.assume(v >= int(lo))
+                ctx.assume(v <= int(hi))
+            else:
+                ctx.assume(v >= -30000)
+                ctx.assume(v <= 30000)
+        (gl if name.startswith("@") else kw)[key] = v
+    return kw, gl
+
+
+def _raw_concrete(decl, model):
+    kw, gl = {}, {}
+    for name, dom in decl.items():
+        key = name.lstrip("@")
+        if dom == "float":
+            v = float(model.get(key, 1.5))
+        elif dom.startswith("float") and "x" in dom:
+            n = int(dom[5])
+            v = [[float(model.get(f"{key}{i}{j}", i * n + j + 1)) for j in range(n)] for i in range(n)]
+        elif dom.startswith("float"):
+            v = [float(model.get(f"{key}{i}", i + 1)) for i in range(int(dom[5]))]
+        else:
+            v = int(model.get(key, int(dom.split("..")[0]) if ".." in dom else 1))
+        (gl if name.startswith("@") else kw)[key] = v
+    return kw, gl
+
+
+@family("E2E.opt-vs-plain", props=["C02", "C04", "C05"],
+        functions=["nsl.Compiler::Compiler.Compile", "nsl.passes.OptimizeLoadAfterStore::OptimizeLoadAfterStoreVisitor", "nsl.passes.OptimizeConstantCasts::OptimizeConstantCastVisitor", "nsl.VM::ExecutionContext.__Execute"],
+        assumptions=["the family of programs is finite (curated: whole-array / struct / vector / matrix copies followed by writes through the copy, loops without a condition, float storage holding ints, constant casts); for EACH program the inputs are symbolic, so the obligation holds for all inputs of that program",
+                     "oracle: the unoptimised module run by the same VM in the same path context (C02 as stated); floats are reals (A2)"])
+def e2e_opt_vs_plain(R):
+    """Each program: compiled with and without `optimize`, both accepted, same result and same globals for all inputs; neither run fails."""
+    import copy
+    fn = "nsl.Compiler::Compiler.Compile"
+    for name, (src, decl) in sorted(raw_programs().items()):
+        rp, excp = vs.program(src, {})
+        ro, exco = vs.program(src, {"optimize": True})
+        if rp is None or ro is None:
+            R.check(f"E2E.opt-vs-plain[{name}]", fn, False, detail=f"rejected: plain {excp!r}, optimised {exco!r}\n{src}")
+            continue
+
+        def run(ctx, rp=rp, ro=ro, decl=decl):
+            kw, gl = _raw_inputs(ctx, decl)
+            outs = []
+            for r in (rp, ro):
+                g = copy.deepcopy(gl)
+                k = copy.deepcopy(kw)
+                got, vm = vs.invoke(r, "f", setglobals=g, **k)
+                outs.append((got, {x: vm.GetGlobal(x) for x in gl}))
+            goals = [("result", _eqv(outs[1][0], outs[0][0]), "optimised result differs from the unoptimised one")]
+            for x in gl:
+                goals.append(("globals", _eqv(outs[1][1][x], outs[0][1][x]), f"global {x}"))
+            return goals
+
+        def replay(model, clause, src=src, decl=decl):
+            kw, gl = _raw_concrete(decl, model)
+            return script("""
+                import io, contextlib, copy
+                from nsl import Compiler, LinearIR, VM
+                src = {{src}}
+                kw, gl = {{kw}}, {{gl}}
+                res = []
+                for opts in ({}, {'optimize': True}):
+                    try:
+                        with contextlib.redirect_stdout(io.StringIO()):
+                            r = Compiler.Compiler().Compile(src, opts)
+                        l = LinearIR.Linker(); l.AddModule(r.IRModule)
+                        vm = VM.VirtualMachine(l.Link())
+                        for k, v in gl.items(): vm.SetGlobal(k, copy.deepcopy(v))
+                        out = vm.Invoke('f', **copy.deepcopy(kw))
+                        res.append((out, {k: vm.GetGlobal(k) for k in gl}))
+                    except BaseException as e:
+                        res.append('raised %s: %s' % (type(e).__name__, e))
+                print(src); print('inputs', kw, gl); print('unoptimised:', res[0]); print('optimised:  ', res[1])
+                if res[0] != res[1] or isinstance(res[0], str): print('REPLAY-CONFIRMED')
+                """, src=src, kw=kw, gl=gl)
+
+        verify(R, "E2E.opt-vs-plain", fn, run, replay, label=name, max_paths=600)
